@@ -7,3 +7,8 @@ package ratelimit
 func VerifBurst(bandwidth int64) int {
 	return newRateLimiter(bandwidth).Burst()
 }
+
+// VerifLimit returns the rate (bytes per second) of the limiter a listener builds for a bandwidth.
+func VerifLimit(bandwidth int64) float64 {
+	return float64(newRateLimiter(bandwidth).Limit())
+}
